@@ -28,7 +28,7 @@ ASSUMPTIONS = [
     "cone bounded to 7 startpoints (SAT-heavy library code under a pure-Python solver)",
 ]
 EXHAUSTIVE_NOTE = "core: every 2- and 3-input single gate (all nodes as n), and-chains and parity trees with cone sizes 1,2,3,4,7"
-EXAMPLES = {"quick": 300, "thorough": 6000}
+EXAMPLES = {"quick": 900, "thorough": 9000}
 
 
 def core(ctx):
@@ -100,7 +100,9 @@ def _case(draw, ctx):
     mi = draw(st.sampled_from([1, 2, 3, 4, 5, 6, 7]))
     spec = draw(S.circuit_spec(min_inputs=max(1, mi - 2), max_inputs=mi, min_gates=draw(st.sampled_from([1, 3, 5])),
                                max_gates=10, max_fanin=4, io_outputs=True, consts=draw(st.booleans()),
-                               min_fanin_nary=draw(st.sampled_from([1, 2, 2]))))
+                               min_fanin_nary=draw(st.sampled_from([1, 2, 2])),
+                               # now and then names related by suffixes, as the transforms' helper names are (x / x_inv / x_pre)
+                               pools=(draw(S.related_names_pool()),) if draw(st.integers(0, 3)) == 0 else (S.BENIGN,)))
     names = [x[0] for x in spec["nodes"]]
     gates = [x[0] for x in spec["nodes"] if x[1] in S.ALL_GATES]
     n = draw(st.sampled_from(names + gates + gates[-3:] * 3))
